@@ -249,7 +249,7 @@ impl UnverifiedBiscuit {
     }
 
     pub(crate) fn block(&self, index: usize) -> Result<Block, error::Token> {
-        let mut block = if index == 0 {
+        let block = if index == 0 {
             proto_block_to_token_block(
                 &self.authority,
                 self.container
@@ -276,9 +276,6 @@ impl UnverifiedBiscuit {
             .map_err(error::Token::Format)?
         };
 
-        // we have to add the entire list of public keys here because
-        // they are used to validate 3rd party tokens
-        block.symbols.public_keys = self.symbols.public_keys.clone();
         Ok(block)
     }
 
